@@ -92,10 +92,18 @@ pub fn gen_rv_comp(ch: &mut Ch, dim: usize, mode: BoundsMode) -> Comp {
     }
     let scale = ch.pick(&[1.0, 10.0, 0.1, 100.0, 1e-3, 1e4]);
     let mut b = Vec::new();
+    // a quarter of the boxes share an end across their coordinates, as hand-written bounds
+    // usually do ([0,1] x [0,4], [-5,5]^n, ...)
+    let shared = ch.weighted(&[6.0, 1.0, 1.0]);
+    let (slo, sw) = (ch.pick(&[0.0, -1.0, -0.5]) * scale, ch.range(0.2, 2.0) * scale);
     for _ in 0..dim {
         let lo = ch.range(-1.0, 0.5) * scale;
         let w = ch.range(0.2, 2.0) * scale;
-        b.push((lo, lo + w));
+        b.push(match shared {
+            1 => (slo, slo + w),
+            2 => (slo, slo + sw),
+            _ => (lo, lo + w),
+        });
     }
     Comp::RV {
         dim,
@@ -239,6 +247,13 @@ pub fn gen_space(ch: &mut Ch, kind: KindTag, mode: BoundsMode, fracs: bool) -> S
                 comps.push(c);
                 weights.push(gen_weight(ch));
                 fr.push(f(ch));
+            }
+            // one compound in ten has all its weights small (or all large): what matters for a
+            // resolution is then the weighted, not the raw, size of the components
+            match ch.weighted(&[8.0, 1.0, 0.5]) {
+                1 => weights.iter_mut().for_each(|w| *w = ch.log_range(1e-3, 0.1)),
+                2 => weights.iter_mut().for_each(|w| *w = ch.log_range(10.0, 1e3)),
+                _ => {}
             }
             SpaceCfg {
                 kind,
